@@ -29,7 +29,7 @@ ASSUMPTIONS = ['RDA/IG store log(mu + 1e-100); 1e-100 is not counted as mass']
 
 ITERS = [1, 2, 3, 10, 50]
 LAST_RUNAWAY = False
-TOTALS = [1.0, 37.5, None]
+TOTALS = [1.0, 37.5, None, 0.3]
 
 
 def bounds(tier):
